@@ -32,6 +32,7 @@ def sig_events(tl):
     return out
 
 
+@guarded
 def check(r, items):
     s = rseq(items)
     before = timeline_rel(s.rel._messages)
